@@ -48,7 +48,7 @@ def plan(tier, seed):
 def mandatory_bins(tier):
     b = ["blocks_" + "+".join(l) for l in GB.all_block_lists()]
     b += ["session_key_drawn", "all_blocks_wrap_the_mac_key", "pass_through_rewrite", "rewrite_known_blocks_same_key", "creations_without_key", "counting_rng",
-          "ecc_wrap", "ecc_rewrite_same_object", "ephemeral_points_distinct", "splice_accepted_when_keys_equal", "splice_body_under_first_key", "splice_body_under_second_key", "splice_triple", "splice_partial_decryptor_set", "splice_unopened_block_between", "read_with_encrypt_only_ecc_encryptor", "content_of_a_read_file_rewritten_under_a_fresh_key", "encrypted_component_under_the_wrapped_key"]
+          "ecc_wrap", "ecc_rewrite_same_object", "ephemeral_points_distinct", "splice_accepted_when_keys_equal", "splice_body_under_first_key", "splice_body_under_second_key", "splice_triple", "splice_partial_decryptor_set", "splice_unopened_block_between", "read_with_encrypt_only_ecc_encryptor", "content_of_a_read_file_rewritten_under_a_fresh_key", "encrypted_component_under_the_wrapped_key", "foreign_blocks_of_unknown_kind"]
     b += ["splice_%s_%s" % (a, c) for a in GB.KINDS for c in GB.KINDS if a != c]
     return b
 
@@ -87,7 +87,15 @@ def open_all(ctx, specs, binary, rp, expect_key=None, model_comps=None):
         ctx.violation("written_header_not_parsable:" + e.rule, {}, rp)
         return None
     keys = []
+    if len(blocks) != len(specs) or [t for t, _ in blocks] != [GB.tag_of(s) for s in specs]:
+        ctx.violation("written_header_block_list_differs", {"got": [t for t, _ in blocks], "expected": [GB.tag_of(s) for s in specs]}, rp)
+        return None
     for s, (tag, val) in zip(specs, blocks):
+        if s["kind"] == "unknown":
+            if val != s["value"]:
+                ctx.violation("foreign_block_not_written_unchanged", {"tag": tag, "got": val, "expected": s["value"]}, rp)
+                return None
+            continue
         try:
             k, attrs = GB.open_block_with_model(s, val)
         except Exception as e:
@@ -133,7 +141,9 @@ def run_wrap(ns, ctx, spec):
         for j in range(spec["n"]):
             idx = spec["i"] + NSH * j
             kinds = lists[idx % len(lists)]
-            specs = GB.gen_blocks(rng, kinds)
+            specs = GB.gen_blocks(rng, kinds, foreign=(idx % 3 == 1))
+            if idx % 3 == 1:
+                ctx.bin("foreign_blocks_of_unknown_kind")
             case = G.gen_case(rng, ncomp=rng.choice((0, 1, 2)))
             if idx % 2 == 0:
                 from ..refs.layout import MComp
@@ -189,7 +199,8 @@ def run_wrap(ns, ctx, spec):
                     continue
             # ---- read with a decryptor subset, write again: pass-through bytes --------------
             n = len(specs)
-            subsets = [frozenset(i for i in range(n) if m >> i & 1) for m in range(1, 1 << n)]
+            op = GB.openable(specs)
+            subsets = [frozenset(op[i] for i in range(len(op)) if m >> i & 1) for m in range(1, 1 << len(op))]
             subset = subsets[idx // len(lists) % len(subsets)]
             text = L.text_of(case.comments, binary)
             renc = GB.read_encryptors(ns, specs, subset)
@@ -230,6 +241,8 @@ def run_wrap(ns, ctx, spec):
                         ctx.violation("pass_through_block_changed_on_rewrite:" + s["kind"], {"before": b1[i][1], "after": b3[i][1]}, rp)
                         ok = False
                 else:
+                    if s["kind"] == "unknown":
+                        continue
                     try:
                         k3, _a = GB.open_block_with_model(s, b3[i][1])
                     except Exception as e:
@@ -246,7 +259,7 @@ def run_wrap(ns, ctx, spec):
                 except L.LayoutError as e:
                     ctx.violation("rewritten_body_not_authentic_under_the_session_key:" + e.rule, {}, rp)
             # ---- the content that was read is put into a NEW file with a fresh key: everything must be under that key ----
-            if ok and len(subset) == len(specs):
+            if ok and len(subset) == len(op):
                 g0 = len(hooks.draws)
                 f2 = B.Bec2File(back.bf3file, list(back.auth_blocks.values()))
                 key2 = bytes(f2.session_key)
